@@ -327,6 +327,11 @@ theorem handle_ord (k : Consts) (m : List String) (kw : CKw) (s s' : State) (h :
   | actionx a => simp only [handle, Except.ok.injEq] at h; rw [← h]; exact hw
   | endactio => simp only [handle, Except.ok.injEq] at h; rw [← h]; exact hw
   | compord c => simp only [handle, Except.ok.injEq] at h; rw [← h]; exact hw
+  | msw op =>
+    simp only [handle] at h
+    cases hs : segStep s.p op with
+    | error e => rw [hs] at h; cases h
+    | ok sm => rw [hs] at h; simp only [Except.ok.injEq] at h; rw [← h]; exact hw
 
 theorem runKws_ord (k : Consts) (kws : List CKw) (acc : Option (String × List CKw)) (s s' : State)
     (h : runKws k acc s kws = .ok s') (w : String) (o : Nat) (hw : ordOf s w = some o) : ordOf s' w = some o := by
@@ -347,6 +352,11 @@ theorem runKws_ord (k : Consts) (kws : List CKw) (acc : Option (String × List C
         | ok u => rw [hh] at h; exact ih _ u h (handle_ord k [] _ s u hh w o hw)
       | endactio => simp only [runKws, handle] at h; exact ih _ _ h hw
       | compord c => simp only [runKws, handle] at h; exact ih _ _ h hw
+      | msw op =>
+        simp only [runKws] at h
+        cases hh : handle k [] s (.msw op) with
+        | error e => rw [hh] at h; cases h
+        | ok u => rw [hh] at h; exact ih _ u h (handle_ord k [] _ s u hh w o hw)
     | some x =>
       obtain ⟨n, ac⟩ := x
       cases kw with
@@ -354,6 +364,7 @@ theorem runKws_ord (k : Consts) (kws : List CKw) (acc : Option (String × List C
       | ops n' rs => simp only [runKws] at h; exact ih _ _ h hw
       | actionx n' => simp only [runKws] at h; exact ih _ _ h hw
       | compord c => simp only [runKws] at h; cases h
+      | msw op => simp only [runKws] at h; exact ih _ _ h hw
 
 /-- A whole report step — its COMPORD keyword included — leaves the ordering of every well that
 existed before the step as it was. -/
